@@ -40,7 +40,9 @@ def gen_mv(rng, d, canon, pga_point_grade=None, allow_array=True, arm=None):
         m['vals'] = [gen_value(rng) for _ in keys]
     elif v < 0.85:
         m['cont'] = 'nd'
-        m['dtype'] = 'float64'
+        # mostly float64; sometimes single precision or a byte-swapped array (what np.frombuffer/np.fromfile and
+        # FITS/netCDF readers hand out)
+        m['dtype'] = 'float64' if rng.random() < 0.75 else rng.choice(['float32', '>f8', '>f4'])
         m['vals'] = [float(gen_value(rng)) for _ in keys]
     else:
         m['cont'] = 'nd'
@@ -56,7 +58,7 @@ def gen_mv(rng, d, canon, pga_point_grade=None, allow_array=True, arm=None):
         for s in shape:
             size *= s
         m['shape'] = shape
-        m['dtype'] = 'float64'
+        m['dtype'] = 'float64' if rng.random() < 0.8 else '>f8'
         m['cont'] = rng.choice(['list', 'nd'])
 
         def arr():
